@@ -203,7 +203,10 @@ class C11(PropertyCheck):
     title = "Graph algorithms return what their graph-theoretic definitions say"
     lean_modules = ["NipyVerif.Props.C11"]
     driver = "Drivers/C11.lean"
-    rule = ("cases are weighted (multi)digraphs / symmetric graphs with seeds and a vertex mask, point clouds "
+    rule = ("cases are operation histories on one graph object (a query that may memoise, then in-place / copying "
+            "structural operations each followed by shortest-path, Voronoi, component, spanning-forest and adjacency "
+            "queries, every step compared with the model and with a recomputation from the object's current edges), "
+            "weighted (multi)digraphs / symmetric graphs with seeds and a vertex mask, point clouds "
             "with k and eps, pairs of point clouds, and sets of lattice coordinates; thorough enumerates every "
             "digraph on <= 4 vertices, every weighted digraph on 3 vertices and every weighted symmetric graph "
             "on 4 vertices with weights in {0,1,2}, every undirected graph on 5 vertices; non-trivial = at least "
@@ -326,6 +329,40 @@ class C11(PropertyCheck):
             pts = [list(pts[0]) for _ in range(n)]     # all identical
         return pts
 
+    QUERIES = ["dij", "dij", "floyd", "vor", "cc", "kru", "dense", "compact"]
+    MUTS = ["normalize", "normalize", "symmeterize", "symmeterize", "anti_symmeterize", "rte", "cut", "copy",
+            "sub", "setw", "assignw", "euclid", "remove_edges", "scalew"]
+
+    def _hist_case(self, rng):
+        """query -> in-place / copying operation -> query ... on one object; the first step always builds
+        whatever a query may memoise, every mutation is followed by at least one shortest-path query"""
+        V = rng.choice([2, 3, 4, 4, 5, 6, 8])
+        style = rng.choice(["sym", "symedges", "directed"])
+        edges = self._rand_graph(rng, V, style != "directed", rng.choice([0.3, 0.5, 0.8]))
+        if style == "symedges":        # symmetric edge set, asymmetric weights: symmeterize keeps E
+            edges = [[u, v, rng.choice(WCHOICES[1:])] for u, v, _ in edges]
+        if rng.random() < 0.5:         # no stored zero: the E-preserving operations really keep E
+            edges = [[u, v, w if w > 0 else 1.0] for u, v, w in edges]
+        steps = [[rng.choice(["dij", "floyd", "vor", "compact"]), [rng.randrange(V) for _ in range(2)]]]
+        for _ in range(rng.choice([1, 2, 2, 3, 4])):
+            m = rng.choice(self.MUTS)
+            arg = None
+            if m == "normalize":
+                arg = rng.choice([0, 0, 1, 2])
+            elif m in ("sub", "remove_edges"):
+                arg = [1 if rng.random() < 0.75 else 0 for _ in range(64)]
+            elif m in ("setw", "assignw"):
+                arg = [rng.choice(WCHOICES) for _ in range(64)]
+            elif m == "euclid":
+                arg = [float(rng.randrange(0, 9)) for _ in range(16)]
+            elif m == "scalew":
+                arg = rng.choice([2.0, 0.5, 4.0])
+            steps.append([m, arg])
+            qs = [rng.choice(["dij", "floyd", "vor"])] + [rng.choice(self.QUERIES) for _ in range(rng.choice([0, 1, 2]))]
+            for qn in qs:
+                steps.append([qn, [rng.randrange(8) for _ in range(rng.choice([1, 2, 3]))]])
+        return {"kind": "hist", "V": V, "e": edges, "steps": steps}
+
     def generate(self, rng, tier):
         q = tier == "quick"
         cases = [
@@ -335,6 +372,13 @@ class C11(PropertyCheck):
             {"kind": "pts", "X": [[0.0], [0.5], [1.0], [3.0], [7.0]], "k": 4, "eps": 1.0},
             {"kind": "pts", "X": [[0.0, 0.0], [0.0, 1.0], [1.0, 0.0], [1.0, 1.0]], "k": 1, "eps": 1.0},
         ]
+        cases += [
+            {"kind": "hist", "V": 4, "e": [[0, 1, 1.0], [1, 2, 2.0], [2, 3, 3.0], [3, 0, 4.0], [0, 2, 10.0], [2, 0, 1.0]],
+             "steps": [["floyd", [0, 1, 2, 3]], ["normalize", c], ["floyd", [0, 1, 2, 3]], ["dij", [0]], ["vor", [0, 3]]]}
+            for c in (0, 1)] + [
+            {"kind": "hist", "V": 5, "e": [[0, 1, 1.0], [1, 0, 9.0], [1, 2, 2.0], [2, 1, 8.0], [2, 3, 7.0], [3, 2, 3.0]],
+             "steps": [["dij", [0]], ["vor", [0, 3]], ["symmeterize", None], ["dij", [0]], ["vor", [0, 3]],
+                       ["euclid", [0.0, 5.0, 6.0, 7.0, 9.0]], ["floyd", [0, 3]], ["vor", [0, 3]]]}]
         cases += self._exhaustive(rng, tier)
         for _ in range(250 if q else 3000):
             V = rng.choice([1, 2, 3, 4, 5, 6, 8, 10, 14, 20, 30])
@@ -344,13 +388,15 @@ class C11(PropertyCheck):
             V = rng.choice([40, 80, 150, 300])
             sym = rng.random() < 0.7
             cases.append(self._gcase(rng, V, self._rand_graph(rng, V, sym, big=True), sym, big=True))
+        for _ in range(260 if q else 3000):   # operation histories on ONE graph object
+            cases.append(self._hist_case(rng))
         for _ in range(20 if q else 150):     # malformed: a negative weight
             V = rng.choice([2, 3, 5])
             e = self._rand_graph(rng, V, False, 0.6)
             if e:
                 e[rng.randrange(len(e))][2] = -1.0
             cases.append(self._gcase(rng, V, e, False))
-        for _ in range(250 if q else 3000):
+        for _ in range(180 if q else 3000):
             n = rng.choice([1, 2, 3, 4, 5, 6, 8, 12, 20])
             dim = rng.choice([1, 2, 3, 4])
             X = self._points(rng, n, dim)
@@ -701,6 +747,200 @@ class C11(PropertyCheck):
                 if not np.allclose(tot[sums != 0], 1, atol=1e-12) or not np.array_equal(retv, sums):
                     fails.append(f"normalize({cc_}): sums {tot.tolist()} / returned {retv.tolist()}")
 
+    # ---- operation histories on one object ---------------------------
+    def _hist(self, c, G):
+        V0, edges0 = c["V"], [tuple(e) for e in c["e"]]
+        g = self._mk(G, V0, edges0)
+        lines, impl, fails, tags = [], [], [], ["history"]
+        trail = []
+
+        def add(line, obs):
+            lines.append(line)
+            impl.append(obs)
+
+        def fail(msg):
+            fails.append(f"after {' -> '.join(trail) or 'construction'}: {msg} "
+                         f"(start V={V0} edges={edges0[:10]}, current edges={gedges(g)[:10]})")
+
+        def eqd(a, b):
+            return len(a) == len(b) and all((x == y) or (x != INF and y != INF and close(x, y, 1e-9, 1e-12))
+                                             for x, y in zip(a, b))
+
+        for name, arg in c["steps"]:
+            cur, V = gedges(g), int(g.V)
+            gl = gline(V, cur)
+            neg = any(w < 0 for _, _, w in cur)
+            sym = is_symmetric(V, cur)
+            label = name if arg is None or isinstance(arg, list) else f"{name}({arg})"
+            try:
+                # ------------------------------------------------ queries
+                if name in ("dij", "floyd", "vor"):
+                    seeds = list(dict.fromkeys(int(x) % V for x in arg))
+                    sl = f"{len(seeds)} " + " ".join(map(str, seeds))
+                    sa = np.array(seeds, dtype=np.intp)
+                    if neg:
+                        try:
+                            g.dijkstra(sa) if name != "vor" else g.voronoi_labelling(sa)
+                            fail(f"{name} accepted a negative weight")
+                        except ValueError:
+                            add(f"{'vor' if name == 'vor' else 'dij'} {gl} {sl}", "error:valueError")
+                        trail.append(label)
+                        continue
+                    if name == "dij":
+                        r = [float(x) for x in g.dijkstra(sa)]
+                        add(f"dij {gl} {sl}", dtxt(r) + " | ok")
+                        want = ref_dist(V, cur, seeds)
+                        if not eqd(r, want):
+                            fail(f"dijkstra(seed={seeds}) = {r} but the true distances of the current graph are {want}")
+                    elif name == "floyd":
+                        F = np.atleast_2d(g.floyd(sa))
+                        for row, s_ in zip(F, seeds):
+                            r = [float(x) for x in row]
+                            add(f"dij {gl} 1 {s_}", dtxt(r) + " | ok")
+                            want = ref_dist(V, cur, [s_])
+                            if not eqd(r, want):
+                                fail(f"floyd row of seed {s_} = {r} but the true distances of the current graph are {want}")
+                                break
+                    else:
+                        lab = [int(x) for x in g.voronoi_labelling(sa)]
+                        add(f"vor {gl} {sl}", " ".join(map(str, lab)) + " | ok")
+                        dS = ref_dist(V, cur, seeds)
+                        dI = [ref_dist(V, cur, [s_]) for s_ in seeds]
+                        for v in range(V):
+                            li = lab[v]
+                            if (dS[v] == INF and li != -1) or (dS[v] != INF and (
+                                    not 0 <= li < len(seeds) or not close(dI[li][v], dS[v], 1e-9, 1e-12))):
+                                fail(f"voronoi_labelling(seed={seeds}) labels vertex {v} with {li}; distances from the "
+                                     f"seeds in the current graph are {[d[v] for d in dI]}")
+                                break
+                elif name == "cc":
+                    lab = [int(x) for x in g.cc()]
+                    add(f"cc {gl}" if sym else f"ccd {gl}", " ".join(map(str, lab)) + (" | ok" if sym else ""))
+                    if sym and lab != ref_components(V, cur):
+                        fail(f"cc labels {lab} are not the components {ref_components(V, cur)}")
+                elif name == "kru":
+                    if sym and not neg:
+                        K = g.kruskal()
+                        k = max(ref_components(V, cur)) + 1
+                        real = gedges(K)[: 2 * (V - k)]
+                        ws = sorted(w for _, _, w in real[::2])
+                        add(f"kru {gl}", f"{k} | {frs(ws)} | ok")
+                        uf = UF(V)
+                        if len(real) != 2 * (V - k) or any(e not in set(cur) for e in real) or \
+                                not all(uf.union(a, b) for a, b, _ in real[::2]) or \
+                                not close(sum(ws), ref_mst_weight(V, cur)[0], 1e-9, 1e-12):
+                            fail(f"kruskal edges {real} are not a minimum spanning forest of the current graph")
+                elif name == "dense":
+                    M = g.to_coo_matrix().toarray()
+                    add(f"dense {gl}", frs(M.ravel().tolist()))
+                    if not np.array_equal(M, dense(V, cur)):
+                        fail("to_coo_matrix() is not the adjacency matrix of the current edges and weights")
+                elif name == "compact":
+                    idx, nb, wt = g.compact_neighb() if cur else (np.zeros(V + 1, int), [], [])
+                    for v in range(V):
+                        got = sorted(zip(np.asarray(nb)[idx[v]:idx[v + 1]].tolist(), np.asarray(wt)[idx[v]:idx[v + 1]].tolist()))
+                        if got != sorted((b, w) for a, b, w in cur if a == v):
+                            fail(f"compact_neighb slice of vertex {v} is {got}")
+                            break
+                # ------------------------------------------------ operations
+                elif name == "normalize":
+                    cc_ = int(arg)
+                    if neg or not cur or (cc_ == 2 and not sym):
+                        continue
+                    A = dense(V, cur)
+                    ret = g.normalize(cc_)
+                    rs, cs = A.sum(1), A.sum(0)
+                    if cc_ < 2:
+                        add(f"norm {cc_} {gl}", gobs(g) + " | " + frs(np.asarray(ret, float).ravel().tolist()))
+                    want = (A / np.where(rs == 0, 1, rs)[:, None] if cc_ == 0 else
+                            A / np.where(cs == 0, 1, cs)[None, :] if cc_ == 1 else
+                            A / np.sqrt(np.where(rs == 0, 1, rs)[:, None] * np.where(cs == 0, 1, cs)[None, :]))
+                    if not consistent(g) or not np.allclose(dense(V, gedges(g)), want, rtol=1e-12, atol=1e-12):
+                        fail(f"normalize({cc_}) did not scale the adjacency matrix as documented")
+                elif name in ("symmeterize", "anti_symmeterize"):
+                    A = dense(V, cur)
+                    getattr(g, name)()
+                    add(f"{'sym' if name == 'symmeterize' else 'asym'} {gl}", gobs(g))
+                    want = (A + A.T) / 2 if name == "symmeterize" else (A - A.T) / 2
+                    if not consistent(g) or not np.array_equal(dense(V, gedges(g)), want):
+                        fail(f"{name} did not produce the (anti)symmetric part of the adjacency matrix")
+                elif name == "rte":
+                    g.remove_trivial_edges()
+                    add(f"rte {gl}", gobs(g, sort=False))
+                    if not consistent(g) or gedges(g) != [e for e in cur if e[0] != e[1]]:
+                        fail("remove_trivial_edges did not keep exactly the non-loop edges")
+                elif name == "cut":
+                    g = g.cut_redundancies()
+                    add(f"cut {gl}", gobs(g))
+                    if not np.array_equal(dense(V, gedges(g)), dense(V, cur)):
+                        fail("cut_redundancies changed the adjacency matrix")
+                elif name == "copy":
+                    old = g
+                    g = g.copy()
+                    if cur:
+                        old.weights *= 3          # the copy must not follow its source
+                        old.edges[:] = 0
+                    if gedges(g) != cur or int(g.V) != V:
+                        fail("copy() is not an independent copy of the graph")
+                elif name == "sub":
+                    valid = np.array(arg[:V])
+                    h = g.subgraph(valid)
+                    vl = f"{V} " + " ".join(str(int(x)) for x in valid)
+                    if h is None:
+                        add(f"sub {gl} {vl}", "none")
+                        if valid.sum() > 0:
+                            fail("subgraph returned None although vertices are kept")
+                    else:
+                        add(f"sub {gl} {vl}", gobs(h, sort=False))
+                        keep = np.nonzero(valid)[0]
+                        if int(h.V) != len(keep) or not np.array_equal(dense(int(h.V), gedges(h)), dense(V, cur)[np.ix_(keep, keep)]):
+                            fail(f"subgraph(valid={valid.tolist()}) is not the induced weighted subgraph")
+                        g = h
+                elif name in ("setw", "assignw", "scalew"):
+                    if not cur:
+                        continue
+                    if name == "scalew":
+                        w = np.array([x[2] for x in cur]) * float(arg)
+                    else:
+                        w = np.array([arg[i % len(arg)] for i in range(len(cur))])
+                    if name == "setw":
+                        g.set_weights(w.copy())
+                    elif name == "assignw":
+                        g.weights = w.copy()
+                    else:
+                        g.weights *= float(arg)
+                    if gedges(g) != [(a, b, float(x)) for (a, b, _), x in zip(cur, w)]:
+                        fail(f"{name}: the weights of the graph are not the assigned ones")
+                elif name == "euclid":
+                    if not cur:
+                        continue
+                    X = np.array([arg[i % len(arg)] for i in range(V)], dtype=float).reshape(V, 1)
+                    g.set_euclidian(X)
+                    want = [(a, b, float(abs(X[a, 0] - X[b, 0]))) for a, b, _ in cur]
+                    if not consistent(g) or gedges(g) != want:
+                        fail("set_euclidian: weights are not the distances between the embedded end points")
+                elif name == "remove_edges":
+                    if not cur:
+                        continue
+                    valid = np.array([arg[i % len(arg)] for i in range(len(cur))])
+                    g.remove_edges(valid)
+                    if not consistent(g) or gedges(g) != [e for e, k in zip(cur, valid) if k]:
+                        fail("remove_edges did not keep exactly the edges flagged valid")
+                else:
+                    raise KeyError(name)
+            except (KeyError, _Timeout):
+                raise
+            except Exception as e:
+                fail(f"{label} raised {type(e).__name__}: {e}")
+                trail.append(label)
+                break
+            trail.append(label)
+            tags.append("h:" + name)
+            if fails:
+                break
+        return {"lines": lines, "impl": impl, "oracle": fails[0] if fails else None,
+                "nontrivial": bool(edges0) and len(c["steps"]) >= 3, "tags": sorted(set(tags)), "mutated": None}
+
     # ---- point clouds ------------------------------------------------
     def _pts(self, c, G):
         X = np.array(c["X"], dtype=float)
@@ -918,6 +1158,16 @@ class C11(PropertyCheck):
                 c = dict(case)
                 c["V"] = V - 1
                 c["valid"] = case["valid"][:-1]
+                yield c
+        elif kd == "hist":
+            st = case["steps"]
+            for i in range(len(st)):
+                c = dict(case)
+                c["steps"] = st[:i] + st[i + 1:]
+                yield c
+            for i in range(len(case["e"])):
+                c = dict(case)
+                c["e"] = case["e"][:i] + case["e"][i + 1:]
                 yield c
         elif kd in ("pts", "xpts"):
             for key in ("X", "Y"):
